@@ -293,8 +293,13 @@ def same_content(fam, T, got, want):
         return False
     if fam == "map":
         return got == want and list(got) == list(want) if False else got == want
+    def same(g, w):  # 1 and 1.0 are different elements of a container of floats
+        return g == w and (type(g) is type(w) or not isinstance(g, (int, float)))
+
     if fam == "set":
-        return len(got) == len(want) and all(any(g == w for g in got) for w in want)
+        return len(got) == len(want) and all(any(same(g, w) for g in got) for w in want)
+    if fam == "seq":
+        return len(got) == len(want) and all(same(g, w) for g, w in zip(got, want))
     return got == want
 
 
@@ -393,11 +398,14 @@ ENUM_WORLD = {
         {"name": "M", "kind": "spec", "bases": [], "opts": {}, "attrs": [
             {"name": "nums", "type": ["list", ["int"]], "default": ["none"]}, {"name": "names", "type": ["list", ["str"]], "default": ["none"]},
             {"name": "scores", "type": ["dict", ["str"], ["int"]], "default": ["none"]}, {"name": "ids", "type": ["set", ["int"]], "default": ["none"]},
-            {"name": "tags", "type": ["set", ["str"]], "default": ["none"]}]},
+            {"name": "tags", "type": ["set", ["str"]], "default": ["none"]},
+            # float elements addressed by equal ints (1 == 1.0): the stored element is what gets transformed / kept, not the value
+            # used to look it up
+            {"name": "weights", "type": ["list", ["float"]], "default": ["none"]}]},
     ],
     "instance_class": "M",
 }
-UNIV = {"nums": [0, 1, 5], "names": ["", "a", "b"], "ids": [0, 1, 5], "tags": ["", "a", "b"]}
+UNIV = {"nums": [0, 1, 5], "names": ["", "a", "b"], "ids": [0, 1, 5], "tags": ["", "a", "b"], "weights": [0.0, 1.0, 5.0]}
 
 
 def enum_cases(attr):
@@ -421,8 +429,9 @@ def enum_cases(attr):
             contents = [None] + [["set", list(c)] for n in range(maxn + 1) for c in itertools.combinations(univ, n)]
         else:
             contents = [None] + [["list", list(c)] for n in range(maxn + 1) for c in itertools.product(univ, repeat=n)]
-        fresh = univ + ([7] if isinstance(univ[0], int) else ["zz"])
-        fn = ["$fn", "inc", 5] if isinstance(univ[0], int) else ["$fn", "suffix", "x"]
+        fresh = univ + ([7] if isinstance(univ[0], (int, float)) else ["zz"])
+        addr = [int(v) for v in fresh] if attr == "weights" else fresh
+        fn = ["$fn", "inc", 5] if isinstance(univ[0], (int, float)) else ["$fn", "suffix", "x"]
         probes = []
         for v in fresh:
             probes.append({"t": "call", "m": f"with_{s}", "a": [v], "k": {}})
@@ -432,7 +441,7 @@ def enum_cases(attr):
                 for i in idxs:
                     probes.append({"t": "call", "m": f"with_{s}", "a": [v], "k": {"_index": i}})
                     probes.append({"t": "call", "m": f"with_{s}", "a": [v], "k": {"_index": i, "_insert": True}})
-            for target in fresh + [-1, -4, 2, 3]:
+            for target in addr + [-1, -4, 2, 3]:
                 for mode in ({}, {"_by_index": True}, {"_by_index": False}):
                     if mode.get("_by_index") is True and not isinstance(target, int):
                         continue
@@ -454,7 +463,7 @@ BOUNDS = {"quick": dict(examples=500, units=14), "thorough": dict(examples=5000,
 
 
 def units(tier, seed):
-    return [["enum", a] for a in ("nums", "names", "scores", "ids", "tags")] + [["hyp", i] for i in range(BOUNDS[tier]["units"])]
+    return [["enum", a] for a in ("nums", "names", "scores", "ids", "tags", "weights")] + [["hyp", i] for i in range(BOUNDS[tier]["units"])]
 
 
 def run_unit(ctx, unit):
